@@ -63,24 +63,42 @@ def current (t : T) : Option Int :=
   if t.level < 0 then none else t.delays[t.level.toNat]?
 
 /-- Result of `Delay(ctx)`: how long it blocked and whether it returned the
-context error. `ctxLeft` is the time until `ctx.Done()` (`none` = never).
-`select { <-time.After(d) | <-ctx.Done() }`: the earlier one wins; when both are
-ready at the same instant Go picks either, the model picks the timer. -/
+context error. `ctxLeft` is the time until `ctx.Done()` (`none` = never). -/
 structure DelayRes where
   waited : Int
   ctxErr : Bool
 deriving Repr, DecidableEq
 
-def delayOf (d : Int) (ctxLeft : Option Nat) : DelayRes :=
+/-- Go's `select` over two receive cases, as an external component with assumed laws:
+given the times at which the timer case and the context case become ready, it says which
+one is taken. Only the laws below are assumed — when both become ready at the same instant
+Go may take either, and nothing is assumed about that. -/
+structure SelectSem where
+  /-- `true` = the `<-time.After(d)` case is taken -/
+  pickTimer : Nat → Nat → Bool
+  timer_first : ∀ a b, a < b → pickTimer a b = true
+  ctx_first : ∀ a b, b < a → pickTimer a b = false
+
+/-- ties go to the timer -/
+def SelectSem.tieTimer : SelectSem :=
+  ⟨fun a b => decide (a ≤ b), fun a b h => by simp; omega, fun a b h => by simp; omega⟩
+
+/-- ties go to the context -/
+def SelectSem.tieCtx : SelectSem :=
+  ⟨fun a b => decide (a < b), fun a b h => by simp; omega, fun a b h => by simp; omega⟩
+
+/-- `select { case <-time.After(d): nil; case <-ctx.Done(): ctx.Err() }` after the `d == 0`
+shortcut; `time.After(d)` with `d ≤ 0` is ready at once -/
+def delayOf (S : SelectSem) (d : Int) (ctxLeft : Option Nat) : DelayRes :=
   if d = 0 then ⟨0, false⟩
   else
-    let w : Int := if d < 0 then 0 else d        -- time.After(d≤0) fires at once
+    let w : Nat := d.toNat
     match ctxLeft with
     | none => ⟨w, false⟩
-    | some c => if w ≤ (c : Int) then ⟨w, false⟩ else ⟨c, true⟩
+    | some c => if S.pickTimer w c then ⟨w, false⟩ else ⟨c, true⟩
 
-def delay (t : T) (ctxLeft : Option Nat) : Option DelayRes :=
-  (current t).map (fun d => delayOf d ctxLeft)
+def delay (S : SelectSem) (t : T) (ctxLeft : Option Nat) : Option DelayRes :=
+  (current t).map (fun d => delayOf S d ctxLeft)
 
 /-! ### op sequences (used by the invariants) -/
 
@@ -89,6 +107,8 @@ inductive Op where
   | release (now : Nat)
   | reset
   | fire (now : Nat)
+  | staleFire     -- an AfterFunc callback that had already been launched (it was waiting for `t.mu`)
+                  -- runs `Reset` after a newer Signal/Release re-armed the timer: level 0, timer stopped
 deriving Repr, DecidableEq
 
 def apply (t : T) : Op → T
@@ -96,6 +116,7 @@ def apply (t : T) : Op → T
   | .release n => release t n
   | .reset => reset t
   | .fire n => fire t n
+  | .staleFire => reset t
 
 def run (t : T) (ops : List Op) : T := ops.foldl apply t
 
@@ -104,7 +125,8 @@ def run (t : T) (ops : List Op) : T := ops.foldl apply t
 `signal <now>` / `release <now>` / `reset` → `ok`
 `fire <now>` → `fired` | `not-due`
 `level` → int;  `getdelay` → int | `panic`
-`delay <ctxLeft|->` → `ok <waited>` | `ctx <waited>` | `panic`
+`delay <ctxLeft|->` → `ok <waited>` | `ctx <waited>` | `panic`   (the driver resolves a tie to the timer;
+  the harness never generates one)
 `deadline` → nat | `-` -/
 
 structure DState where
@@ -141,7 +163,7 @@ def step (d : DState) (line : String) : DState × String :=
     let ctx : Option (Option Nat) := if c == "-" then some none else c.toNat?.map some
     match ctx with
     | some ctx =>
-      (d, match delay d.t ctx with
+      (d, match delay SelectSem.tieTimer d.t ctx with
           | some r => (if r.ctxErr then "ctx " else "ok ") ++ toString r.waited
           | none => "panic")
     | none => (d, "bad-op")
